@@ -102,8 +102,15 @@ class C07(Check):
                 for hist in itertools.product(CORE6, repeat=length):
                     strat.append(dict(kind="enumerated", ops=[["cross" if i % 2 == 0 else "auto", h] for i, h in enumerate(hist)], final=final))
         if q:
-            idx = rng.choice(len(strat), 70, replace=False)
+            idx = rng.choice(len(strat), 60, replace=False)
             strat = [strat[i] for i in sorted(idx)]
+        # two handles on the same cache: measure A through the first, B through a freshly opened one,
+        # then A again through the first (its in-memory state must not outlive the other handle's rebuild)
+        pairs_ = [(a, b) for a in CORE6 for b in CORE6 if a != b]
+        if q:
+            pairs_ = [pairs_[i] for i in sorted(rng.choice(len(pairs_), 12, replace=False))]
+        for a, b in pairs_:
+            strat.append(dict(kind="two-handles", ops=[["cross", a], ["cross_new", b]], final=a))
         for i, c in enumerate(strat):
             c["seed"] = seed * 1009 + (i % 7)
             yield c
@@ -111,7 +118,7 @@ class C07(Check):
             length = int(rng.integers(1, 7))
             ops = []
             for _ in range(length):
-                k = rng.choice(["cross", "auto", "build", "build_none", "reopen", "swap", "hist"], p=[0.3, 0.15, 0.2, 0.1, 0.1, 0.1, 0.05])
+                k = rng.choice(["cross", "auto", "build", "build_none", "reopen", "swap", "hist"], p=[0.28, 0.14, 0.16, 0.08, 0.2, 0.09, 0.05])
                 if k in ("cross", "auto", "swap", "hist"):
                     ops.append([str(k), str(rng.choice(NAMES))])
                 elif k == "build":
@@ -170,6 +177,15 @@ class C07(Check):
                         return out
             want = final_measure(fresh, case["final"])
             last_binned = None
+            # every handle ever opened on a cache directory stays in use: operations pick one at random
+            handles = {k: [v] for k, v in hist.items()}
+
+            class Pick(dict):
+                def __getitem__(self_, k):
+                    hs = handles[k]
+                    return hs[int(rng.integers(len(hs)))]
+
+            hist = Pick()
             mix_workers = case["kind"] == "sampled" and case["seed"] % 3 == 0
             try:
                 for op in case["ops"]:
@@ -179,6 +195,14 @@ class C07(Check):
                     if kind == "cross":
                         cfg = make_config(op[1])
                         yaw.crosscorrelate(cfg, hist["ref"], hist["unk"], ref_rand=hist["rr"], unk_rand=hist["ur"], max_workers=nw)
+                        last_binned = op[1]
+                    elif kind == "cross_new":
+                        cfg = make_config(op[1])
+                        fresh_handles = {k: Catalog(tmp / f"hist-{k}", max_workers=1) for k in handles}
+                        for k, v in fresh_handles.items():
+                            handles[k].append(v)
+                        yaw.crosscorrelate(cfg, fresh_handles["ref"], fresh_handles["unk"], ref_rand=fresh_handles["rr"],
+                                           unk_rand=fresh_handles["ur"], max_workers=nw)
                         last_binned = op[1]
                     elif kind == "auto":
                         cfg = make_config(op[1])
@@ -200,9 +224,9 @@ class C07(Check):
                         if op[1] in ("ref", "rr"):
                             last_binned = "unbinned"
                     elif kind == "reopen":
-                        hist[op[1]] = Catalog(tmp / f"hist-{op[1]}", max_workers=1)
+                        handles[op[1]].append(Catalog(tmp / f"hist-{op[1]}", max_workers=1))
                 os.environ["YAW_NUM_THREADS"] = "1"
-                got = final_measure(hist, case["final"])
+                got = final_measure({k: v[0] for k, v in handles.items()}, case["final"])
             except Exception as e:
                 import traceback
 
